@@ -491,7 +491,15 @@ func (t *sseClientTransport) sendResponseMessage(response interface{}) {
 		return
 	}
 
-	ctx, cancel := context.WithTimeout(context.Background(), 30*time.Second)
+	// The answer carries the context values of the stream the request arrived on (the
+	// handshake's), but not its cancellation.
+	parent := context.Background()
+	t.sseConn.mutex.Lock()
+	if t.sseConn.ctx != nil {
+		parent = icontext.WithoutCancel(t.sseConn.ctx)
+	}
+	t.sseConn.mutex.Unlock()
+	ctx, cancel := context.WithTimeout(parent, 30*time.Second)
 	defer cancel()
 
 	httpReq, err := http.NewRequestWithContext(ctx, http.MethodPost, t.endpoint.String(), bytes.NewReader(respBytes))
@@ -508,6 +516,16 @@ func (t *sseClientTransport) sendResponseMessage(response interface{}) {
 	for key, values := range t.httpHeaders {
 		for _, value := range values {
 			httpReq.Header.Add(key, value)
+		}
+	}
+
+	// Apply HTTP before-request functions.
+	if t.client != nil {
+		if err := t.client.applyHTTPBeforeRequest(ctx, httpReq); err != nil {
+			if t.logger != nil {
+				t.logger.Errorf("HTTP before-request failed for response to server: %v", err)
+			}
+			return
 		}
 	}
 
